@@ -31,6 +31,7 @@ def gen(tier, rng):
     for sc in _it.islice(_c16._gen_base(tier, rng.fork("codec")), 4):
         yield sc
     yield nodegen.translated_script(rng, "translated")
+    yield nodegen.translated_script(rng, "translated-after-self-dial", self_dial_first=True)
     yield nodegen.advertised_script(rng, "advertised")
     yield nodegen.translated_long_script(rng, "translated-long")
     # "including nodes behind address-filtering NATs that dial each other": dual open with the first ping filtered, several times (the roles are random)
